@@ -1,0 +1,52 @@
+//go:build verif
+
+// Read-only accessors and schedule points for the verification harness in /verif.
+// Compiled only with -tags verif; the library behaves identically without it.
+
+package go9p
+
+import "sync"
+
+// VerifFidNum returns the fid number of a server-side fid.
+func VerifFidNum(f *SrvFid) uint32 {
+	if f == nil {
+		return NOFID
+	}
+	return f.fid
+}
+
+// VerifFidState returns refcount and opened flag of a server-side fid.
+func VerifFidState(f *SrvFid) (refcount int, opened bool) {
+	f.Lock()
+	defer f.Unlock()
+	return f.refcount, f.opened
+}
+
+// VerifConnCounts returns the number of outstanding requests (tags) and fids of a connection.
+func VerifConnCounts(c *Conn) (tags, fids int) {
+	c.Lock()
+	defer c.Unlock()
+	return len(c.reqs), len(c.fidpool)
+}
+
+// VerifReqConnMsize returns the msize and dialect of the request's connection.
+func VerifReqConnMsize(r *SrvReq) (uint32, bool) { return r.Conn.Msize, r.Conn.Dotu }
+
+var verifMu sync.RWMutex
+var verifHook func(point string, a, b uint32)
+
+// VerifSetHook installs (or, with nil, removes) the callback run at schedule points.
+func VerifSetHook(f func(point string, a, b uint32)) {
+	verifMu.Lock()
+	verifHook = f
+	verifMu.Unlock()
+}
+
+func verifPoint(point string, a, b uint32) {
+	verifMu.RLock()
+	f := verifHook
+	verifMu.RUnlock()
+	if f != nil {
+		f(point, a, b)
+	}
+}
